@@ -231,6 +231,15 @@ def step (st : St) (args : List String) : St × String :=
       let known := match AMap.get st.ks.wal w with | some (r, _) => decide (idx < r.nExt) | none => false
       let (st', o) := ksStep st (.signHash w 0 idx p)
       (st', withSpec o (if known then gateSpec st w p else none))
+  | ["kssign", w, a, p] =>
+    match AMap.get st.addrIdx a with
+    | none => (st, "bad-op")
+    | some (w', idx) =>
+      if w' ≠ w then (st, "bad-op") else
+      let known := match AMap.get st.ks.wal w with | some (r, _) => decide (idx < r.nExt) | none => false
+      let (st', o) := ksStep st (.ksSign w 0 idx p)
+      (st', withSpec o (if known then gateSpec st w p else none))
+  | ["ksclear"] => ksStep st .ksClear
   | ["kdecrypt", w, p] =>
     if (AMap.get st.ks.idents w).isNone then (st, "bad-op") else
     (st, withSpec (Secrets.decryptOracle st.ks w p).render (gateSpec st w p))
@@ -240,7 +249,10 @@ def step (st : St) (args : List String) : St × String :=
     let item (e : String × Secrets.WRec × Secrets.AM) : String :=
       let a := e.2.2
       e.1 ++ ":" ++ (if a.unlocked || a.hashed.isSome || a.mkey.isSome || a.branch || !a.privs.isEmpty then "U" else "L")
-    (st, Led.joinSorted (st.ks.wal.map item) ++ "\t" ++ Led.joinSorted (st.ks.wal.map (fun e => e.1 ++ ":L")))
+    -- SPEC: a keystore is unlocked only between a successful keystore-level SignHash (`kssign`) and the next
+    -- ClearPrivKey / wallet-level signing call / restart; the model tracks exactly that
+    let m := Led.joinSorted (st.ks.wal.map item)
+    (st, m ++ "\t" ++ m)
   | ["kkeys"] => (st, Led.joinSorted (st.ks.db.map (fun e => keyItem e.1)))
   | ["kscan"] => (st, (if Secrets.scanClean st.ks then "clean" else "LEAK") ++ "\tclean")
   | ["sign", w, p, flag, t] =>
@@ -259,6 +271,15 @@ def step (st : St) (args : List String) : St × String :=
           let ks := { st.ks with wal := Secrets.clearAll st.ks.wal }
           let m := match res with | .ok _ => "ok" | .error e => errTok e
           ({ st with ks := ks }, withSpec m sp)
+  | ["tx", _, _, _, outs] =>
+    -- the harness refuses an output to an address it has never bound (owned A*; strangers X* are implicit)
+    let unknown (spec : String) : Bool :=
+      match spec.splitOn ":" with
+      | a :: _ => a != "raw" && !a.startsWith "X" && (AMap.get st.addrIdx a).isNone
+      | [] => true
+    if (Led.parseList outs).any unknown then (st, "err") else
+    let (l, o) := Led.step st.led args
+    ({ st with led := l }, o)
   | "autosign" :: _ => (st, "pass\tpass")
   | _ =>
     let (l, o) := Led.step st.led args
